@@ -934,7 +934,7 @@ def generate(repo):
           'Definition src_no_xact_journal_master : bool := %s.' % bl(g['no_xact_journal_master']),
           '(* account.cc find_account (recursive, one call per name segment) declares no fixed char array *)',
           'Definition src_find_account_no_frame_buffer : bool := %s.' % bl(g['find_account_no_frame_buffer']),
-          '(* the repairs proposed for F50, F51, F52: false / None while they are not in the source *)',
+          '(* the repairs proposed for F51, F52, F53: false / None while they are not in the source *)',
           'Definition src_conversion_cycle_by_referent : bool := %s.' % bl(g['conversion_cycle_by_referent']),
           'Definition src_calc_depth_limit : option Z := %s.' % opt(g['calc_depth_limit']),
           'Definition src_format_width_limit : option Z := %s.' % opt(g['format_width_limit']),
